@@ -166,7 +166,7 @@ def units(tier):
     us.append(Unit('verify_signature', primitive_factory('verify_signature'), max_witnesses=120, expect=('returns', 'raises:TypeError', 'raises:InvalidSignature')))
     us.append(Unit('verify_gpg_signature', primitive_factory('verify_gpg_signature'), max_witnesses=200, expect=('returns', 'raises:InvalidSignature')))
     us.append(Unit('verify_signable', vsign.factory('c13s', PROPS, N=1, M=1 if q else 2, Loh=4, rich=not q, junk=True, any_args=True,
-                                                    thr_kinds=('int', 'bool', 'float', 'none', 'str', 'list'), modes=(True, False, 1, 0, None, 'x')),
+                                                    thr_kinds=('int', 'bool', 'float', 'none', 'str', 'list'), modes=(True, False, None, 'x') if q else (True, False, 1, 0, None, 'x')),
                    max_witnesses=300, expect=('accepts', 'rejects:SignatureError', 'rejects:TypeError')))
     us.append(Unit('verify_delegation', vdeleg.factory_vd('c13d', PROPS, **VD_CFG), max_witnesses=300,
                    expect=('accepts', 'rejects:UnknownRoleError', 'rejects:MetadataVerificationError', 'rejects:SignatureError', 'rejects:TypeError')))
